@@ -7,6 +7,8 @@ Legs:
            rationals; `gradient_squared` (quadratic) on random integer arrays and their polarisation.
            Routes: numba kernels with source semantics (NUMBA_DISABLE_JIT=1; breadth), JIT-compiled
            kernels (subset), scipy backend (Cartesian operators it registers).
+  bound  : the real kernels applied to cos / sin on grids with and without hole stay below the explicit uniform
+           error bounds `C h^2` of Props/C01GapSmooth.lean in EVERY cell (incl. the cell adjoining the axis).
   order  : refinement study on smooth fields (N, 2N, 4N) against hand-derived continuum operators:
            the property monitor (observed order >= 1.8 central / 0.8 one-sided away from the axis).
            Runs on a fixed set of operators every time and on every operator whose matrix differs.
@@ -57,16 +59,42 @@ REQUIRED_THEOREMS = [
     "cylLaplace_uniform_away_from_axis", "cylVectorLaplace_uniform_away_from_axis",
     "cylVectorLaplace_r_error_eq", "cylVectorLaplace_first_order_at_axis_smooth",
     "cylVectorLaplace_first_order_at_axis_sharp",
+    # polynomial exactness with explicit remainders, Cartesian any number of axes / 3-d, cylindrical (Props/C01Gap.lean)
+    "d2_line_poly", "d1_central_line_poly", "d1_forward_line_poly", "d1_backward_line_poly",
+    "cartLaplace_poly_nd", "cartGradient_poly_nd", "cartGradient_onesided_poly_nd", "cartDivergence_poly_nd",
+    "cartDivergence_forward_poly_nd", "cartDivergence_backward_poly_nd",
+    "cartVectorGradient_poly_nd", "cartVectorLaplace_poly_nd", "cartTensorDivergence_poly_nd",
+    "cartLaplace_poly_3d", "cartGradient_poly_3d", "cartDivergence_poly_3d", "cartVectorGradient_poly_3d",
+    "cartVectorLaplace_poly_3d", "cartTensorDivergence_poly_3d", "cartLaplace_poly_3d_mixed",
+    "cylGradient_poly", "cylVectorGradient_poly", "cylTensorDivergence_poly", "cylVectorLaplace_components_poly",
+    "cylVectorLaplace_z_even_uniform", "cylLaplace_even_uniform", "cylVectorLaplace_phi_axis_first_order",
+    # polar / spherical: remaining operators, uniform over all cells for fields regular at the axis / origin
+    "radialGradient_poly", "radialDivergence_poly", "sphLaplace_plain_even_uniform",
+    "sphDivergence_conservative_odd_uniform", "sphDivergence_conservative_odd_remainder_bound",
+    "sphLaplace_conservative_even_remainder_bound", "polarTensorDivergence_quartic_poly",
+    "sphTensorDivergence_plain_quartic_poly", "sphTensorDoubleDivergence_plain_regular_uniform",
+    "sphTensorDoubleDivergence_conservative_regular_poly", "sphTensorDivergence_conservative_regular_poly",
+    "polarLaplace_even_uniform_bound", "sphLaplace_plain_even_uniform_bound",
+    "sphLaplace_conservative_even_uniform_bound", "sphDivergence_conservative_odd_uniform_bound",
+    # ALL smooth fields regular at the axis / origin, every cell incl. the one at the axis (Props/C01GapSmooth.lean)
+    "d1_central_fun_taylor_local", "even_iteratedDeriv3_bound", "even_d1_error_div_radius", "even_d1_error_bound",
+    "even_d2_sub_d1_div_bound", "polarLaplace_even_smooth_uniform", "sphLaplace_plain_even_smooth_uniform",
+    "sphLaplace_conservative_even_smooth_uniform", "sphTensorDoubleDivergence_plain_even_smooth_uniform",
+    "cylLaplace_even_smooth_uniform", "d2_fun_bounded_local", "odd_d1_sub_div_bound",
+    "sphDivergence_conservative_odd_smooth_uniform", "cylVectorLaplace_z_even_smooth_uniform",
+    "centre_eq_lattice", "centre_ge_half", "sphLaplace_conservative_grid_uniform", "polarLaplace_grid_uniform",
+    "sphDivergence_conservative_grid_uniform",
 ]
-EXTRA_PROP_FILES = ["C01Taylor", "C01Smooth", "C01SmoothB", "C01Axis", "C01Nine"]
+EXTRA_PROP_FILES = ["C01Taylor", "C01Smooth", "C01SmoothB", "C01Axis", "C01Nine", "C01Gap", "C01GapSmooth"]
 RULE = ("matrix leg: seed-derived grids of the four stencil families (Cartesian 1-3 axes incl. UnitGrid, polar, "
         "spherical, cylindrical; 1-4 cells per axis, anisotropic dyadic spacings, with/without hole) x every registered "
         "operator x every documented option (central/forward/backward, conservative or not, central flag) x route; "
         "distinct by (grid, operator, options, route); all are non-trivial (non-zero matrices). order leg: smooth test "
-        "fields on three refinements per operator.")
+        "fields on three refinements per operator. bound leg: the proved uniform error constants (fields regular at the "
+        "axis, all cells) on cos/sin for seed-chosen N and r_min.")
 ASSUMPTIONS = [
     "matrix entries compared at 1e-11 relative to the largest entry; zero pattern exactly",
-    "theorems cover polynomial fields (all coefficients, sizes, positions); general smooth fields are validated by the refinement study",
+    "theorems cover polynomial fields (all coefficients, sizes, positions) and all C2/C3/C4 real fields (Props/C01Smooth*.lean; uniformly over all cells for fields regular at the axis: Props/C01GapSmooth.lean); the refinement study is the model-free monitor of the same clause",
 ]
 TRUSTED_EXTRA = ["numba code generation / scipy.ndimage are external: observed through the matrix comparison only"]
 
@@ -388,6 +416,63 @@ def order_case(arg):
     return res
 
 
+# ------------------------------------------------------------------------------------------
+# bound leg: the explicit constants of the `*_grid_uniform` / `*_even_smooth_uniform` theorems (Props/C01GapSmooth.lean:
+# error <= C * M * h^2 in EVERY cell incl. the one adjoining the axis, fields regular at the axis) checked on the real
+# kernels with cos / sin (all derivative bounds M = 1)
+BOUND_CASES = [
+    # (class, operator, options, C_r (h^2 coefficient), C_z (k^2 coefficient), theorem)
+    ("polar", "laplace", {}, 7 / 12, 0.0, "polarLaplace_grid_uniform"),
+    ("sph", "laplace", {"conservative": False}, 13 / 12, 0.0, "sphLaplace_plain_even_smooth_uniform"),
+    ("sph", "laplace", {"conservative": True}, 17 / 12, 0.0, "sphLaplace_conservative_grid_uniform"),
+    ("sph", "divergence", {"conservative": True, "method": "central", "safe": False}, 11 / 6, 0.0,
+     "sphDivergence_conservative_grid_uniform"),
+    ("cyl", "laplace", {}, 7 / 12, 1 / 12, "cylLaplace_even_smooth_uniform"),
+    ("cyl", "vector_laplace", {}, 7 / 12, 1 / 12, "cylVectorLaplace_z_even_smooth_uniform"),
+]
+
+
+def bound_case(arg):
+    """max over ALL cells of error / (C_r h^2 + C_z k^2) for the real operator on cos / sin"""
+    import pde  # noqa
+
+    cls, op, opts, c_r, c_z, _thm, N, rmin = arg
+    rad = (rmin, rmin + 2.0) if rmin else 2.0
+    if cls == "polar":
+        grid = pde.PolarSymGrid(rad, N)
+    elif cls == "sph":
+        grid = pde.SphericalSymGrid(rad, N)
+    else:
+        grid = pde.CylindricalSymGrid(rad, (-0.5, 1.0), [N, max(2, N // 2 + 1)])
+    f = grid.make_operator_no_bc(op, backend="numba", **opts)
+    pads = [grid.axes_bounds[a][0] + (np.arange(n + 2) - 0.5) * grid.discretization[a] for a, n in enumerate(grid.shape)]
+    P = np.meshgrid(*pads, indexing="ij")
+    V = [p[tuple([slice(1, -1)] * len(pads))] for p in P]
+    h = grid.discretization[0]
+    k = grid.discretization[1] if cls == "cyl" else 0.0
+    lap_r = lambda r: -np.cos(r) - np.sin(r) / r  # noqa  (cos)'' + (cos)'/r
+    if op == "laplace" and cls == "polar":
+        arr, exact = np.cos(P[0]), lap_r(V[0])
+    elif op == "laplace" and cls == "sph":
+        arr, exact = np.cos(P[0]), -np.cos(V[0]) - 2 * np.sin(V[0]) / V[0]
+    elif op == "divergence":
+        arr = np.zeros([3] + list(P[0].shape))
+        arr[0] = np.sin(P[0])
+        exact = np.cos(V[0]) + 2 * np.sin(V[0]) / V[0]
+    elif op == "laplace":
+        arr, exact = np.cos(P[0]) * np.cos(P[1]), lap_r(V[0]) * np.cos(V[1]) - np.cos(V[0]) * np.cos(V[1])
+    else:  # cylindrical vector Laplacian, axial component (index 1 of (r, z, phi))
+        arr = np.zeros([3] + list(P[0].shape))
+        arr[1] = np.cos(P[0]) * np.cos(P[1])
+        exact = lap_r(V[0]) * np.cos(V[1]) - np.cos(V[0]) * np.cos(V[1])
+    rin, rout = RANKS[op]
+    out = np.full([3] * rout + list(V[0].shape), np.nan)
+    f(arr, out)
+    got = out[1] if op == "vector_laplace" else out
+    err = float(np.abs(got - exact).max())
+    return {"err": err, "bound": c_r * h * h + c_z * k * k, "h": float(h), "k": float(k)}
+
+
 ORDER_CASES = []
 for _cls, _ops in OPS.items():
     for _op, _optl in _ops.items():
@@ -577,6 +662,22 @@ def run(ctx):
                 differing_ops.add((g["cls"], op))
             if not isinstance(rr["complex_dev"], float) or not (rr["complex_dev"] <= 1e-9 * max(1.0, sc) * 10):
                 ctx.disagree("complex:" + rname, ckey, "complex-linear", rr["complex_dev"], "operator on complex data")
+
+    # bound leg -----------------------------------------------------------------------------------
+    b_args = [c + (N, rmin) for c in BOUND_CASES for N in sorted(rng.sample([2, 3, 4, 6, 8, 12, 16, 24, 32, 48, 64], 4 if not thorough else 11))
+              for rmin in (0.0, rng.choice([0.25, 0.5, 1.0]))]
+    res_b = run_many("harness.c01", "bound_case", b_args, env={"NUMBA_DISABLE_JIT": "1"}, procs=16)
+    for a_, rb in zip(b_args, res_b):
+        case = {"bound": list(a_[:2]), "opts": a_[2], "N": a_[6], "r_min": a_[7], "theorem": a_[5]}
+        ctx.count(case, nontrivial=True, leg="bound")
+        ctx.impl_traces += 1
+        ctx.hist("bound", f"{a_[0]}:{a_[1]}")
+        if isinstance(rb, str):
+            ctx.disagree("bound", case, "operator runs", rb[-600:], "real operator failed")
+            continue
+        if not (rb["err"] <= rb["bound"] * (1 + 1e-9) + 1e-11):
+            ctx.disagree("bound", case, f"error <= {rb['bound']} (theorem {a_[5]}, cos/sin, all cells)", rb["err"],
+                         "real kernel exceeds the proved uniform error bound")
 
     # order leg ------------------------------------------------------------------------------------
     if thorough:
